@@ -5,6 +5,7 @@ package client
 import (
 	"context"
 	"sync"
+	"time"
 
 	"github.com/fluffle/goirc/logging"
 )
@@ -185,6 +186,9 @@ func (s *vSess) handler(id int, fg bool) HandlerFunc {
 				s.mu.Unlock()
 			}
 		}
+		if fg && id == 1 && vParam("REPLY", 1) == 1 {
+			c.Raw("PRIVMSG " + s.channel + " :ack") // handlers answer what they see, whatever state the connection is in by then
+		}
 		if fg {
 			s.mu.Lock()
 			s.activeFG[seq]--
@@ -212,14 +216,23 @@ func VerifSession() {
 	s.kind = vParam("SCRIPT", 0)
 	s.script, s.nick, s.channel, s.user = vMakeScript(s.kind)
 	vScript := s.script
-	s.tseq, s.tid, s.tbeh = vLen("tseq", 0, n-1), vLen("tid", 0, 2), vLen("tbeh", 0, 3)
+	slim := vParam("SLIM", 0) == 1 // fewer handler-behaviour and chunking variants (used where another dimension is the subject)
+	if slim {
+		s.tseq, s.tid, s.tbeh = 0, 0, vLen("tbeh", 0, 1)
+	} else {
+		s.tseq, s.tid, s.tbeh = vLen("tseq", 0, n-1), vLen("tid", 0, 2), vLen("tbeh", 0, 3)
+	}
 	gated := s.tbeh == 3 && s.tid < 2
 	stream := ""
 	for i := 0; i < n; i++ {
 		stream += vScript[i] + "\r\n"
 	}
 	var w *vWire
-	switch vLen("chunking", 0, 3) {
+	nchunk := 3
+	if slim {
+		nchunk = 0
+	}
+	switch vLen("chunking", 0, nchunk) {
 	case 0:
 		w = vNewLiveWire(stream)
 	case 1:
@@ -244,6 +257,13 @@ func VerifSession() {
 	}
 	conn := Client(cfg)
 	s.conn = conn
+	if vParam("FLOODHOLD", 0) == 1 {
+		// flood control on, and already engaged: the sender holds back the very first lines
+		// (holds last "long": a timer does not fire while anything else can still happen)
+		vSetOpt("lazyTimers", 1)
+		cfg.Flood = false
+		conn.badness = 20 * time.Second
+	}
 	if s.track {
 		conn.EnableStateTracking()
 	}
@@ -591,5 +611,65 @@ func VerifC06CancelDuringConnect() {
 		vAssert(!conn.Connected(), "not-connected-at-the-end")
 	}
 	mu.Unlock()
+	vReach("end")
+}
+
+// VerifC03Burst: one line whose foreground handler is held back by the harness,
+// then LINES more lines arriving in a single read - more than the client's
+// internal queue holds - and only then is the handler released: every line is
+// still delivered exactly once, in wire order, one at a time. The digit of the
+// first line and the delay-bounded goroutine schedule are the inputs.
+func VerifC03Burst() {
+	vSetOpt("schedExplore", 1)
+	vSetOpt("maxSwitches", vParam("SW", 1))
+	vYieldKinds(vParamKinds())
+	vSetOpt("deadlockIsViolation", 1)
+	n := vParam("LINES", 40)
+	tag := vStr("tag", 1)
+	vAssume(tag[0]-'a' < 26)
+	text := func(i int) string { return string([]byte{tag[0], byte('A' + i/26), byte('a' + i%26)}) }
+	first := ":u!i@h PRIVMSG #c :" + text(0) + "\r\n"
+	rest := ""
+	for i := 1; i <= n; i++ {
+		rest += ":u!i@h PRIVMSG #c :" + text(i) + "\r\n"
+	}
+	w := vNewLiveWire(first, rest)
+	vInstallDialer(&vDialer{wire: w})
+	cfg := NewConfig("me")
+	cfg.Server, cfg.Proxy, cfg.PingFreq, cfg.Flood = "srv:1", "vtest://p", 0, true
+	conn := Client(cfg)
+	var mu sync.Mutex
+	var order []string
+	active := 0
+	gate := make(chan struct{})
+	conn.HandleFunc("PRIVMSG", func(c *Conn, l *Line) {
+		mu.Lock()
+		vAssert(active == 0, "fg-handlers-of-different-lines-never-overlap")
+		active++
+		order = append(order, l.Text())
+		isFirst := len(order) == 1
+		mu.Unlock()
+		if isFirst {
+			<-gate
+		}
+		mu.Lock()
+		active--
+		mu.Unlock()
+	})
+	err := conn.ConnectContext(context.Background())
+	vAssert(err == nil, "connect-ok")
+	vRunPending() // the first handler is held; the reader has taken in as much as the client lets it
+	close(gate)
+	vRunPending()
+	mu.Lock()
+	vAssert(len(order) == n+1, "burst:every-line-delivered-once")
+	for i := range order {
+		if i <= n {
+			vAssert(order[i] == text(i), "burst:delivered-in-wire-order")
+		}
+	}
+	mu.Unlock()
+	conn.Close()
+	vRunPending()
 	vReach("end")
 }
